@@ -1,27 +1,28 @@
-import Percival.Driver.Af
-import Percival.Driver.Afmon
-import Percival.Driver.Upmodel
-import Percival.Driver.Upmon
+import Percival.Proofs.AfAns
 /-!
 # `Out.ans` is print ∘ cut ∘ parse (labelled tests, C14)
 
-`Model.AfStep.Out.ans` and `Model.UpStep.Out.ans` are the typed form of: print the model's output with
+`Model.AfStep.Out.ans` and `Model.UpStep.Out.ans` — the answers `C14.monitor_accepts_model` /
+`C14.up_monitor_accepts_model` feed to the monitors — are the typed form of: print the model's output with
 `Driver/Af.render` (`Driver/Upmodel.render`), keep the part before ` | `, cut it into tokens as `Driver/Loop.loopMon`
-does, read them with `Driver/Afmon.parseAns` (`Driver/Upmon.parseAns`).  String functions do not reduce in the kernel,
-so this is checked by evaluation (`#guard`, at every build) on an output of every shape rather than proved.  Likewise
-`UpStep.kindOf` against `Driver/Upmon.parseKind` on a line of every op.
+does, read them with `Driver/Afmon.parseAns` (`Driver/Upmon.parseAns`).  The token level is a theorem
+(`Proofs/AfAns.lean`, `C14.af_monitor_reads_printed_answer`, `C14.up_monitor_reads_printed_answer`, and
+`up_parseKind` for the operation line); the tests below additionally go through the whole printed line — the cut at
+` | ` (`tools/vlib.py`) and `String.trimAscii` / `String.splitOn " "` of `Driver/Loop`, which are not part of the theorems
+(`afLoopCutOk`, `upLoopCutOk`: the hypothesis of `C14.*_monitor_reads_loop_line_partial`) — by evaluation (`#guard`, at
+every build) on an output of every shape, and run both executables' step functions on the text of a case.
 -/
 namespace Percival.KAT.AfAns
-open Percival.Model Percival.Driver
+open Percival Percival.Model Percival.Driver Percival.Proofs.AfAns
 
-/-- the tokens of the part of a printed line before ` | ` -/
-def l1toks (line : String) : List String :=
-  (((line.splitOn " | ").headD "").splitOn " ").filter (· ≠ "")
+/-- the tokens of the part of a printed line before ` | `, cut as `Driver/Loop.loopMon` cuts them -/
+def l1toks (line : String) : List String := loopToks ((line.splitOn " | ").headD "")
 
 section af
 open Percival.Model.AfStep
 
-def agrees (o : Out) : Bool := Afmon.parseAns (l1toks (Af.render o)) == o.ans
+def agrees (o : Out) : Bool :=
+  l1toks (Af.render o) == Af.l1Toks o && Afmon.parseAns (l1toks (Af.render o)) == o.ans && afLoopCutOk o
 
 def c : DsStep.L2c := { live := 3, req := [24, 12] }
 def h : HL2 := { a := [3, 5, 9], hal := 32, c := c }
@@ -29,18 +30,42 @@ def e : EvL2 := { imm := [(3, [7, 8])], minq := 3, tq := some ([some 1, none], 1
                   socks := some ([(some 2, none, some 0)], 48, [(4, 1)], 16), rp := (1, 4096), qp := (0, 4096), c := c }
 def e0 : EvL2 := { imm := [], minq := 32, tq := none, socks := none, rp := (0, 4096), qp := (0, 4096), c := c }
 
-#guard [Out.word .ok, .word .skip, .word .badOp].all agrees
+#guard [Out.word .ok, .word .skip, .word .badOp, .word .oob, .word .assert].all agrees
 #guard [Out.end_ 0 17, .end_ 3 17, .end_ (-2) 17].all agrees
 #guard [Out.heap true 0 none h, .heap false 1 none h, .heap true 0 (some none) h, .heap true 0 (some (some 5)) h,
         .heap true 2 (some (some 0)) h].all agrees
 #guard [Out.ev .ok 0 none e, .ev .fail 1 none e, .ev .exists_ 0 none e0, .ev .noent 0 none e, .ev .broken 0 none e,
         .ev .ok 0 (some []) e0, .ev .ok 0 (some [7]) e, .ev .fail 2 (some [7, 8, 1]) e, .ev .fail 1 (some []) e].all agrees
+-- the printed lines themselves
+#guard Af.render (.heap true 0 (some (some 5)) h) = "ok rf=0 id=5 | a=3,5,9 hal=32 live=3 req=24,12"
+#guard Af.render (.heap false 1 (some none) h) = "fail rf=1 id=none | a=3,5,9 hal=32 live=3 req=24,12"
+#guard Af.render (.ev .ok 0 (some [7, 8]) e0) =
+  "ok rf=0 ran=7,8 | imm=- minq=32 tq=null S=null rp=0/4096 qp=0/4096 live=3 req=24,12"
+#guard Af.render (.ev .exists_ 0 none e0) = "exists rf=0 | imm=- minq=32 tq=null S=null rp=0/4096 qp=0/4096 live=3 req=24,12"
+#guard Af.render (.end_ 0 17) = "end live=0 leaked=0 | n=17" && Af.render (.word .skip) = "skip"
+
+/-! a case as text: the operation lines, `pmodel af`'s lines (`afPrinted`), `pmodel afmon`'s verdicts on their L1 parts -/
+def caseText : List String :=
+  ["failat 5", "h_init", "h_add 5 7", "h_add 3 2", "h_add 5 1", "h_min", "reg_imm 7 3", "reg_tm 8 100", "reg_net 2 4 0",
+   "reg_net 9 4 0", "h_delmin", "run", "clock 1000", "run", "cancel_net 4 0", "cancel_net 4 0", "cancel_tm 8", "h_free", "end"]
+
+def caseLines : List (List String) := caseText.map loopToks
+#guard (caseLines.mapM Af.parseOp).isSome
+#guard afVerdicts {} (caseLines.zip ((afPrinted {} caseLines).map l1toks)) == List.replicate caseLines.length "ok"
+#guard match caseLines.mapM Af.parseOp with
+  | some ops => (runOps {} ops).all fun r => agrees r.2
+  | none => false
+-- a perturbed answer is rejected: a failure without a refused request, a wrong minimum
+#guard (Afmon.step {} (loopToks "h_init") (loopToks "fail rf=0")).2 ≠ "ok"
+#guard (Afmon.step (Afmon.step (Afmon.step {} ["h_init"] ["ok", "rf=0"]).1 (loopToks "h_add 5 7") ["ok", "rf=0"]).1
+  ["h_min"] (loopToks "ok rf=0 id=4")).2 ≠ "ok"
 end af
 
 section up
 open Percival.Model.UpStep
 
-def agreesUp (o : Out) : Bool := Upmon.parseAns (l1toks (Upmodel.render o)) == o.ans
+def agreesUp (o : Out) : Bool :=
+  l1toks (Upmodel.render o) == Upmodel.l1Toks o && Upmon.parseAns (l1toks (Upmodel.render o)) == o.ans && upLoopCutOk o
 
 def l2 : L2 := { c := { live := 3, req := [56, 16] }, socks := [(64, true, false)], imm := 1, tm := 0,
                  pools := [(0, 16), (1, 16), (0, 4096), (2, 4096)] }
@@ -48,6 +73,9 @@ def l2 : L2 := { c := { live := 3, req := [56, 16] }, socks := [(64, true, false
 #guard [Out.word .ok, .word .skip, .word .modelContract].all agreesUp
 #guard [Out.end_ 0 17 none, .end_ 3 17 none, .end_ (-1) 17 (some (2, 1)), .end_ 0 17 (some (0, 1))].all agreesUp
 #guard [Out.line true 0 l2, .line false 1 l2, .line false 0 l2, .line true 3 l2].all agreesUp
+#guard Upmodel.render (.line false 1 l2) = "fail rf=1 | live=3 req=56,16 S=64:r- imm=1 tm=0 pools=0/16,1/16,0/4096,2/4096"
+#guard Upmodel.render (.end_ (-1) 17 (some (2, 1))) = "end live=-1 leaked=0 | n=17 model-live=2 model-bad=1"
+#guard Upmodel.render (.word .modelContract) = "model-contract"
 
 /-- a line of every op, as the generator writes it -/
 def opLines : List String :=
@@ -56,11 +84,28 @@ def opLines : List String :=
    "nw_cancel 1", "na_cancel 2", "nc_cancel 0", "hq_cancel 0", "nbw_free 0", "nbr_cancel 0", "nbr_free 0",
    "nc_start 0 gb 1000", "nc_start 1 - -", "hq_start 0 g 17"]
 
-#guard opLines.all fun l =>
-  let toks := (l.splitOn " ").filter (· ≠ "")
-  match Upmodel.parseOp toks with
-  | some op => Upmon.parseKind toks == kindOf op
+-- every op line is read by `pmodel upmodel` (that `pmodel upmon` then sees its kind is `up_parseKind`)
+#guard opLines.all fun l => (Upmodel.parseOp (loopToks l)).isSome
+
+/-! a case as text (the generator's fixed sequence under `failat 11`) -/
+def caseTextUp : List String :=
+  ["failat 11", "nr_start 0 0", "nr_start 0 0", "nw_start 0 0", "nw_start 0 0", "na_start 0 1", "na_start 0 1",
+   "nc_start 0 g 1000000", "nc_start 0 g 1000000", "nc_start 1 - -", "nc_start 1 - -", "nbr_init 0 2", "nbr_init 0 2",
+   "nbr_wait 0 0", "nbr_wait 0 0", "nbr_cancel 0", "nbr_wait 0 9000", "nbr_wait 0 9000", "nbw_init 0 3", "nbw_init 0 3",
+   "nbw_write 0 10", "nbw_write 0 5000", "nbw_reserve 0 100", "nbw_reserve 0 100", "nbw_consume 0 100", "hq_start 0 g 3",
+   "hq_start 0 g 3", "hq_cancel 0", "nbw_free 0", "nbr_cancel 0", "nbr_free 0", "nc_cancel 1", "nc_cancel 0", "na_cancel 0",
+   "nw_cancel 0", "nr_cancel 0", "end"]
+
+def caseLinesUp : List (List String) := caseTextUp.map loopToks
+#guard (caseLinesUp.mapM Upmodel.parseOp).isSome
+#guard upVerdicts () (caseLinesUp.zip ((upPrinted {} caseLinesUp).map l1toks)) == List.replicate caseLinesUp.length "ok"
+#guard match caseLinesUp.mapM Upmodel.parseOp with
+  | some ops => (runOps {} ops).all fun r => agreesUp r.2
   | none => false
+-- perturbed answers are rejected: a failure without a refused request, a `BAD=` word, memory left at `end`
+#guard (Upmon.step () (loopToks "nr_start 0 0") (loopToks "fail rf=0")).2 ≠ "ok"
+#guard (Upmon.step () (loopToks "nw 10 10 1") (loopToks "ok rf=0 BAD=bytes")).2 = "bad BAD=bytes"
+#guard (Upmon.step () ["end"] (loopToks "end live=1 leaked=0")).2 ≠ "ok"
 end up
 
 end Percival.KAT.AfAns
